@@ -1,11 +1,12 @@
 Require Extraction.
 Require Import ExtrOcamlBasic.
 From Coq Require Import ZArith NArith List.
-From VB Require Import Serde.StreamDefs Serde.EntityDefs.
+From VB Require Import Serde.StreamDefs Serde.EntityDefs Serde.StoredDefs.
 Extraction "Serde_model.ml" Nat.pred N.succ Z.succ
   b2z z2b len enc dec wfd fits esize U8 I16 U16 I32 U32 I64 U64
   read_slice read_be read_le read_sbl read_single_be read_var_len read_count write_single_be trimmed_array
   c_be c_le c_sbl c_var_len c_single_be64 c_single_fixed_be c_count c_network_byte
   c_address c_coin c_output c_btctx c_btcblock c_btcblock_raw c_vbkblock c_vbkblock_raw
+  c_vbk_endorsement c_alt_endorsement c_stored_btc c_stored_vbk c_stored_alt
   c_altblock c_keystones c_ctxinfo c_authctx
   c_merklepath c_vbkmerklepath c_pubdata c_vbktx c_vbkpoptx c_atv c_vtb c_popdata.
